@@ -459,18 +459,20 @@ func apply(s *wallet.Service, dir string, o Op, ab *abstractor, genN *int) (Op, 
 		err = s.UnloadWallet(o.Name)
 	case "UpdSecrets":
 		err = s.UpdateSecrets(o.Name, pw, func(w wallet.Wallet) error {
+			// a failing callback has already modified the wallet it was given
+			w.SetLabel(labels[o.Label])
 			if !o.Fok {
 				return errFn
 			}
-			w.SetLabel(labels[o.Label])
 			return nil
 		})
 	case "Upd":
 		err = s.Update(o.Name, func(w wallet.Wallet) error {
+			// a failing callback has already modified the wallet it was given
+			w.SetLabel(labels[o.Label])
 			if !o.Fok {
 				return errFn
 			}
-			w.SetLabel(labels[o.Label])
 			return nil
 		})
 	}
@@ -683,6 +685,50 @@ func run(args []string) error {
 			{Kind: "Recover", Name: "d.wlt", Seed: 3, Pw: 1},
 			{Kind: "Unload", Name: "b.wlt"},
 			{Kind: "Create", Name: "c.wlt", Typ: 2, Seed: 3, Coin: 2, Label: 3, N: 1},
+		})
+
+	fixed = append(fixed,
+		[]Op{ // Update / UpdateSecrets whose callback modifies the wallet and then fails; failing save after a modification
+			{Kind: "Create", Name: "a.wlt", Typ: 0, Seed: 1, Label: 1, N: 2},
+			{Kind: "Upd", Name: "a.wlt", Fok: false, Label: 2},
+			{Kind: "UpdSecrets", Name: "a.wlt", Fok: false, Label: 3},
+			{Kind: "Upd", Name: "a.wlt", Fok: true, Label: 4, Dfail: true},
+			{Kind: "Create", Name: "e.wlt", Typ: 2, Seed: 2, Label: 1, Enc: true, Pw: 1, N: 1},
+			{Kind: "UpdSecrets", Name: "e.wlt", Pw: 1, Fok: false, Label: 2},
+			{Kind: "UpdSecrets", Name: "e.wlt", Pw: 1, Fok: true, Label: 3, Dfail: true},
+			{Kind: "Upd", Name: "e.wlt", Fok: false, Label: 4},
+			{Kind: "Create", Name: "t.wlt", Typ: 0, Seed: 3, Label: 1, N: 1, Temp: true},
+			{Kind: "Upd", Name: "t.wlt", Fok: false, Label: 2},
+			{Kind: "SetLabel", Name: "a.wlt", Label: 2, Dfail: true},
+			{Kind: "Encrypt", Name: "a.wlt", Pw: 1, Dfail: true},
+			{Kind: "NewAddr", Name: "a.wlt", N: 2, Dfail: true},
+			{Kind: "Decrypt", Name: "e.wlt", Pw: 1, Dfail: true},
+		},
+		[]Op{ // a name held in memory with an unused seed: refused, the file of the first wallet must stay
+			{Kind: "Create", Name: "a.wlt", Typ: 0, Seed: 1, Label: 1, N: 2},
+			{Kind: "Create", Name: "a.wlt", Typ: 0, Seed: 2, Label: 2, N: 1},
+			{Kind: "Create", Name: "a.wlt", Typ: 2, Seed: 3, Label: 3, Enc: true, Pw: 1, N: 1},
+			{Kind: "Create", Name: "a.wlt", Typ: 1, Label: 3},
+			{Kind: "Create", Name: "t.wlt", Typ: 0, Seed: 2, Label: 1, N: 1, Temp: true},
+			{Kind: "Create", Name: "t.wlt", Typ: 0, Seed: 3, Label: 2, N: 1},
+			{Kind: "Create", Name: "b.wlt", Typ: 0, Seed: 4, Label: 2, N: 1, Dfail: true},
+			{Kind: "Create", Name: "c.wlt", Typ: 1, Label: 2, Dfail: true},
+		},
+		[]Op{ // bip44 and xpub scans with activity on one chain only / both / none, on plain and encrypted wallets
+			{Kind: "Create", Name: "a.wlt", Typ: 2, Seed: 1, Label: 1, N: 1},
+			{Kind: "Scan", Name: "a.wlt", N: 3, Ea: 0, Ca: 2},
+			{Kind: "Scan", Name: "a.wlt", N: 2, Ea: 2, Ca: 0},
+			{Kind: "Scan", Name: "a.wlt", N: 2, Ea: 0, Ca: 0},
+			{Kind: "NewAddr", Name: "a.wlt", N: 2, Chg: true},
+			{Kind: "Encrypt", Name: "a.wlt", Pw: 2},
+			{Kind: "Scan", Name: "a.wlt", N: 1, Ea: 0, Ca: 1},
+			{Kind: "NewAddr", Name: "a.wlt", N: 1, Chg: true},
+			{Kind: "Scan", Name: "a.wlt", Pw: 2, N: 1, Ea: 1, Ca: 1},
+			{Kind: "Create", Name: "x.wlt", Typ: 3, Seed: 2, Label: 1, N: 1},
+			{Kind: "Scan", Name: "x.wlt", N: 3, Ea: 2},
+			{Kind: "Create", Name: "d.wlt", Typ: 0, Seed: 3, Label: 1, N: 1},
+			{Kind: "Scan", Name: "d.wlt", N: 3, Ea: 3},
+			{Kind: "Scan", Name: "a.wlt", N: 2, Ea: 0, Ca: 2, Dfail: true},
 		})
 
 	for si := 0; si < nseq+len(fixed); si++ {
